@@ -16,6 +16,7 @@ harness fires with the Connection), the TCP transports (harness.fakes.FakeTransp
 cuts, flips and chunks the bytes between them and calls connectionLost), tqdm disabled by
 hide_progress, stdout/stderr are StringIO.
 """
+import gc
 import io
 import json
 import os
@@ -53,7 +54,9 @@ TRUSTED = [
 RULE = ("transit-world transfers: file sizes {0,1,CHUNK±1,4*CHUNK±1,8*CHUNK±1,random<=400kB}, directory trees, text; record-aligned, "
         "random and 1-byte chunkings; receiver attaching its consumer after 0..all records; cut points at every record boundary and "
         "mid-record; single bit flips (length prefix, nonce, body); ack honest/dropped/flipped/forged (wrong hash, no hash, not ok, "
-        "garbage, junk hash, empty); source growing after the offer; plus an adversarial record-level stream against the real "
+        "garbage, junk hash, empty); source growing after the offer; whole ciphertext records replayed / duplicated / swapped / "
+        "withheld by a man in the middle, optionally followed by a cut; a NAME.tmp already in the receive directory (longer, equal, "
+        "shorter; planted, or left behind by a real interrupted transfer run first in the same sandbox); plus an adversarial record-level stream against the real "
         "Receiver (over/under-long, empty records, loss before attach); non-trivial = reached a transfer outcome; distinct = "
         "distinct canonical output traces")
 
@@ -214,6 +217,7 @@ class RxEnd:
         self.r._transit_receiver = FakeTransit(self.d_conn)
         self.w = FakeWormhole()
         self.started = False
+        self.f = None
         self.d = None
         self.dirmode = False
 
@@ -319,16 +323,25 @@ def chunk_stream(stream, mode, seed, offs):
 def run_xfer(case):
     box = tempfile.mkdtemp(prefix="wv_c04_")
     try:
-        return _run_xfer(case, box)
+        prior = case.get("prior")
+        if prior:
+            # an earlier transfer into the SAME receive directory (typically interrupted: it leaves NAME.tmp behind)
+            r0 = _run_xfer(dict(prior, name=case.get("name", "payload.bin")), box, "src0")
+            gc.collect()
+            r = _run_xfer(case, box, "src")
+            r.violations = [(sig, "(first transfer) " + msg) for sig, msg in r0.violations] + r.violations
+            r.tags = r.tags + ["prior:" + t for t in r0.tags if t.startswith(("rx:", "fault:"))]
+            return r
+        return _run_xfer(case, box, "src")
     finally:
         shutil.rmtree(box, ignore_errors=True)
 
 
-def _run_xfer(case, box):
-    srcdir = os.path.join(box, "src")
+def _run_xfer(case, box, srcname):
+    srcdir = os.path.join(box, srcname)
     dstdir = os.path.join(box, "dst")
     os.makedirs(srcdir)
-    os.makedirs(dstdir)
+    os.makedirs(dstdir, exist_ok=True)
     pl = case["payload"]
     name = case.get("name", "payload.bin")
     tags = ["kind:" + pl["type"]]
@@ -391,13 +404,35 @@ def _run_xfer(case, box):
         tags.append("grow")
     ts, tr, cs, cr = make_pipe()
     rx = RxEnd(dstdir, cr)
+    # a NAME.tmp already lying in the receive directory: planted by the case, or left by the `prior` transfer
+    tmp_path = os.path.join(dstdir, name + ".tmp")
+    if case.get("stale") is not None and pl["type"] == "file":
+        with open(tmp_path, "wb") as f:
+            f.write(bytes([0xAA]) * case["stale"])
+    stale_len = os.path.getsize(tmp_path) if (pl["type"] == "file" and os.path.lexists(tmp_path)) else None
+    if stale_len is not None:
+        tags.append("stale-tmp:" + ("longer" if stale_len > len(content) else "equal" if stale_len == len(content) else "shorter"))
+    before = snapshot_tree(dstdir)
     rx.offer(offer)
+    if outcome(rx.d) != "pending":
+        # the offer was turned down before any transit (e.g. the name already exists): nothing may change on disk
+        try:
+            fd.close()
+        except Exception:
+            pass
+        tags.append("rx-rejected:" + outcome(rx.d))
+        if outcome(rx.d) == "ok":
+            viol.append(("success-without-transfer", "receiver reported success without receiving anything"))
+        if snapshot_tree(dstdir) != before:
+            viol.append(("rejected-offer-changed-files", f"receive directory changed although the offer was rejected: {sorted(os.listdir(dstdir))}"))
+        return Result(lines, exp, viol, tags, nontrivial=False)
     xfersize = rx.r.xfersize
     # zipstream archives the root of an EMPTY directory as the member "./", which _extract_file's guard refuses
     refuse = pl["type"] == "dir" and not pl["tree"]
     if refuse:
         tags.append("obs:empty-directory-refused")
-    lines.append(f"rx {'dir' if rx.dirmode else 'file'} {xfersize}" + (" refuse" if refuse else ""))
+    lines.append(f"rx {'dir' if rx.dirmode else 'file'} {xfersize}" + (" refuse" if refuse else "")
+                 + (f" stale {stale_len}" if stale_len is not None else ""))
     exp.append(rx.summary())
 
     # the receiver's permission goes back over the (fake) wormhole; the real sender starts sending
@@ -435,7 +470,7 @@ def _run_xfer(case, box):
     first_bad = len(frames)       # index of the first record that does not arrive intact
     cut = False
     if fault:
-        pos = fault_position(fault, offs, total)
+        pos = fault_position(fault, offs, total) if "at" in fault else 0
         if fault["kind"] == "cut":
             stream = stream[:pos]
             cut = True
@@ -447,6 +482,43 @@ def _run_xfer(case, box):
             first_bad = max([i for i in range(len(frames)) if offs[i] <= pos])
             rel = pos - offs[first_bad]
             tags.append("fault:flip@" + ("len" if rel < 4 else "nonce" if rel < 28 else "body"))
+        elif fault["kind"] in ("replay", "dup", "swap", "droprec"):
+            # a man in the middle working on whole ciphertext records: he has no key, but he can re-send, re-order or
+            # withhold complete length-prefixed records, and cut the stream afterwards
+            n = len(frames)
+            fr2 = list(frames)
+            fb = None
+            k = fault["kind"]
+            if k == "replay" and n >= 2:
+                j = max(1, min(fault.get("dst", n - 1), n - 1))
+                i = max(0, min(fault.get("src", j - 1), j - 1))
+                fr2[j] = frames[i]
+                fb = j
+            elif k == "dup" and n >= 1:
+                i = min(fault.get("src", 0), n - 1)
+                fr2.insert(i + 1, frames[i])
+                fb = i + 1
+            elif k == "swap" and n >= 2:
+                a, b = sorted((min(fault.get("a", 0), n - 1), min(fault.get("b", 1), n - 1)))
+                if a < b:
+                    fr2[a], fr2[b] = frames[b], frames[a]
+                    fb = a
+            elif k == "droprec" and n >= 1:
+                j = min(fault.get("rec", 0), n - 1)
+                del fr2[j]
+                fb = j
+            if fb is None:
+                fault = None
+            else:
+                keep = fault.get("keep")
+                tags.append("fault:" + k + ("+cut" if keep is not None else ""))
+                if keep is not None:
+                    keep = max(0, min(keep, len(fr2)))
+                    fr2 = fr2[:keep]
+                    cut = True
+                    fb = min(fb, keep)
+                first_bad = fb
+                stream = b"".join(fr2)
         else:
             fault = None
     if not fault:
@@ -461,6 +533,8 @@ def _run_xfer(case, box):
     def maybe_connect(force=False):
         if not rx.started and (force or delivered >= early):
             rx.connect()
+            if cr._consumer is not None:
+                rx.f = cr._consumer._f          # only to close it at "process exit", see the end of this function
             lines.append("connect")
             exp.append(rx.summary())
 
@@ -481,7 +555,7 @@ def _run_xfer(case, box):
         maybe_connect(force=True)
     got_bytes = sum(len(p) for p in plain[:delivered])
     short = got_bytes < xfersize
-    stuck = bool(fault) and fault["kind"] == "flip" and not dead and delivered < len(frames)
+    stuck = bool(fault) and not cut and not dead and delivered < len(frames)
     if stuck:
         tags.append("rx-stuck")
     conn_lost = False
@@ -595,6 +669,9 @@ def _run_xfer(case, box):
             viol.append(("sender-success-without-matching-ack", f"receiver={rs} (sent no ack) but sender reported success"))
         elif ackmode == "nohash":
             tags.append("obs:ack-without-hash-accepted")
+    # the receiving process exits: a file object left open by a failed transfer is closed (and flushed) by the interpreter
+    if rx.f is not None and not rx.f.closed:
+        rx.f.close()
     return Result(lines, exp, viol, tags)
 
 
@@ -720,6 +797,37 @@ def corpus():
     out.append(xfer(dict(type="dir", tree=TREES[4], pseed=3), name="d", fault=dict(kind="cut", at=["rec", 99, -1])))
     out.append(xfer(dict(type="dir", tree=TREES[0], pseed=3), name="d", ack="wronghash"))
     out.append(xfer(dict(type="dir", tree=TREES[0], pseed=3), name="d", ack="drop"))
+    # a NAME.tmp already in the receive directory: longer than, equal to, shorter than what comes in
+    for sz, st in [(5, 100), (5, 5), (5, 2), (0, 50), (1, 0), (CHUNK + 1, 3 * CHUNK), (2 * CHUNK, CHUNK), (20000, 49152)]:
+        out.append(xfer(filep(sz), stale=st, chunk="rand", cseed=st))
+    out.append(xfer(filep(40), stale=100, fault=dict(kind="cut", at=["rec", 0, 30])))
+    out.append(xfer(filep(CHUNK + 9), stale=5 * CHUNK, early=99, chunk="rec"))
+    out.append(xfer(filep(30), stale=100, ack="wronghash"))
+    # … as left behind by a real transfer of the same name that was cut, run first in the same sandbox
+    interrupted = xfer(filep(5 * CHUNK, pseed=9), fault=dict(kind="cut", at=["rec", 3, 0]), chunk="rec")
+    for sz in [20000, 3 * CHUNK, 5 * CHUNK, 0, 1]:
+        out.append(xfer(filep(sz, pseed=2), prior=interrupted, chunk="rand", cseed=sz))
+    out.append(xfer(filep(100, pseed=2), prior=xfer(filep(3000, pseed=9), fault=dict(kind="cut", at=["rec", 0, -1])), name="a b"))
+    out.append(xfer(filep(100, pseed=2), prior=xfer(filep(3 * CHUNK, pseed=9), fault=dict(kind="flip", at=["rec", 2, 30], bit=1))))
+    out.append(xfer(filep(100, pseed=2), prior=xfer(filep(300, pseed=9))))        # second transfer of an existing name: refused
+    # whole ciphertext records re-sent, re-ordered or withheld by a man in the middle, optionally followed by a cut
+    for sz in [2 * CHUNK, 3 * CHUNK, 2 * CHUNK + 7, CHUNK + 1, 4 * CHUNK]:
+        nrec = (sz + CHUNK - 1) // CHUNK
+        for j in range(1, nrec):
+            for i in sorted({0, j - 1}):
+                out.append(xfer(filep(sz), fault=dict(kind="replay", src=i, dst=j), chunk="rec"))
+                out.append(xfer(filep(sz), fault=dict(kind="replay", src=i, dst=j, keep=j + 1), chunk="rand", cseed=j))
+        for i in range(nrec):
+            out.append(xfer(filep(sz), fault=dict(kind="dup", src=i), chunk="rand", cseed=i))
+            out.append(xfer(filep(sz), fault=dict(kind="dup", src=i, keep=nrec), chunk="rec"))
+            out.append(xfer(filep(sz), fault=dict(kind="droprec", rec=i), chunk="rec"))
+            out.append(xfer(filep(sz), fault=dict(kind="droprec", rec=i, keep=nrec - 1), chunk="rand", cseed=i))
+        for a in range(nrec - 1):
+            out.append(xfer(filep(sz), fault=dict(kind="swap", a=a, b=a + 1), chunk="rec"))
+            out.append(xfer(filep(sz), fault=dict(kind="swap", a=a, b=nrec - 1, keep=nrec), early=99, chunk="rec"))
+    out.append(xfer(filep(3 * CHUNK), fault=dict(kind="replay", src=1, dst=2, keep=3), stale=4 * CHUNK))
+    out.append(xfer(dict(type="dir", tree=TREES[4], pseed=3), name="d", fault=dict(kind="replay", src=0, dst=1, keep=2)))
+    out.append(xfer(dict(type="dir", tree=TREES[4], pseed=3), name="d", fault=dict(kind="dup", src=0)))
     for t in TEXTS:
         out.append(xfer(dict(type="text", text=t)))
     for a in ["ok", "no", "missing", "OK"]:
@@ -771,6 +879,36 @@ def gen_xfer(rng):
         c["ackpos"] = rng.randrange(200)
     elif k < 0.9 and payload["type"] == "file":
         c["grow"] = rng.choice([1, 10, CHUNK, CHUNK + 1])
+    if rng.random() < 0.2:
+        # record-granular manipulation of the ciphertext stream instead of whatever fault was chosen above
+        if payload["type"] == "file" and rng.random() < 0.7:
+            c["payload"] = payload = filep(rng.choice([2, 3, 4, 5]) * CHUNK + rng.choice([0, 0, 0, 1, -1, 77]), rng.randrange(1000))
+        for key in ("ack", "grow", "lost_before_connect"):
+            c.pop(key, None)
+        kind = rng.choice(["replay", "replay", "dup", "swap", "droprec"])
+        f = dict(kind=kind)
+        if kind == "replay":
+            f["dst"] = rng.randrange(1, 6)
+            f["src"] = rng.randrange(0, f["dst"])
+            if rng.random() < 0.6:
+                f["keep"] = f["dst"] + rng.choice([1, 1, 1, 0, 2])
+        elif kind == "dup":
+            f["src"] = rng.randrange(0, 6)
+        elif kind == "swap":
+            f["a"], f["b"] = rng.randrange(0, 6), rng.randrange(0, 6)
+        else:
+            f["rec"] = rng.randrange(0, 6)
+        if "keep" not in f and rng.random() < 0.4:
+            f["keep"] = rng.randrange(0, 7)
+        c["fault"] = f
+    if payload["type"] == "file" and rng.random() < 0.2:
+        r = rng.random()
+        if r < 0.3:
+            c["prior"] = xfer(filep(rng.choice([3000, CHUNK + 1, 3 * CHUNK, 5 * CHUNK]), rng.randrange(1000)),
+                              fault=dict(kind="cut", at=["ratio", rng.randrange(1 << 20)]), chunk="rec")
+        else:
+            size = payload["size"]
+            c["stale"] = rng.choice([0, 1, size, size + 1, max(0, size - 1), 2 * size + 3, size // 2, 3 * CHUNK, 400000])
     return c
 
 
@@ -862,7 +1000,7 @@ def shrink(case):
             c = dict(case)
             c[k] = v
             yield c
-    for k in ("grow", "lost_before_connect"):
+    for k in ("grow", "lost_before_connect", "early"):
         if case.get(k):
             c = dict(case)
             c.pop(k)
